@@ -123,6 +123,9 @@ inline void register_more() {
   add("AuxLatitude.ConvertAngleSeries", {0.6, 0.8}, 36, [](X x, O o) { for (int i = 0; i < 6; ++i) for (int j = 0; j < 6; ++j) o[6 * i + j] = AUX().Convert(i, j, AuxAngle(x[0], x[1]), false).tan(); });
   add("AuxLatitude.ConvertAngleExact", {0.6, 0.8}, 36, [](X x, O o) { for (int i = 0; i < 6; ++i) for (int j = 0; j < 6; ++j) o[6 * i + j] = AUX().Convert(i, j, AuxAngle(x[0], x[1]), true).tan(); });
   add("AuxLatitude.ToAuxiliary", {0.6, 0.8}, 12, [](X x, O o) { for (int i = 0; i < 6; ++i) { double d = o[6 + i]; o[i] = AUX().ToAuxiliary(i, AuxAngle(x[0], x[1]), &d).tan(); if (bits(d) != bits(o[6 + i])) o[6 + i] = d; } });
+  // at the pole (tan phi = 1/0) every derivative d tan(zeta)/d tan(phi) has a finite limit (F77: Authalic returned NaN there): the baseline
+  // call of this entry must give valid numbers throughout
+  add("AuxLatitude.ToAuxiliaryPole", {1.0, 0.0}, 12, [](X x, O o) { for (int i = 0; i < 6; ++i) { double d = o[6 + i]; o[i] = AUX().ToAuxiliary(i, AuxAngle(x[0], x[1]), &d).tan(); if (bits(d) != bits(o[6 + i])) o[6 + i] = d; } });
   add("AuxLatitude.FromAuxiliary", {0.6, 0.8}, 12, [](X x, O o) { for (int i = 0; i < 6; ++i) { int n = SI; o[i] = AUX().FromAuxiliary(i, AuxAngle(x[0], x[1]), &n).tan(); seti(o, 6 + i, n); } });
   add("AuxLatitude.Clenshaw", {0.6, 0.8, 0.1, 0.01}, 2, [](X x, O o) { double c[2] = {x[2], x[3]}; o[0] = AuxLatitude::Clenshaw(true, x[0], x[1], c, 2); o[1] = AuxLatitude::Clenshaw(false, x[0], x[1], c, 2); });
   // ---- DAuxLatitude ----
